@@ -361,6 +361,21 @@ class SymFile(object):
         # static header records (concrete offsets)
         cands = [(r.start, r.size, r.kind, r) for r in self.lay.records] + \
             list(self.dynamic)
+        # one model of the path narrows the candidates to those whose start
+        # (or start + 4) coincides with the position in that model; equality
+        # is then proved for these only
+        if not isinstance(pos, int) and len(cands) > 3:
+            m = self.ctx.model()
+            if m is not None:
+                def val(x):
+                    if isinstance(x, int):
+                        return x
+                    v = m.eval(symx._num(x)[1], model_completion=True)
+                    return v.as_long() if z3.is_int_value(v) else None
+                pv = val(pos)
+                if pv is not None:
+                    cands = [c for c in cands
+                             if val(c[0]) in (pv, pv - 4)]
         for start, rsize, kind, ref in cands:
             if f == 'i' and self._same(pos, start):
                 out = (rsize,)
